@@ -26,6 +26,7 @@ def run(chk):
     chk.rule('C02-R4', 'no read of a for-loop variable after its loop has exited (stale binding)', 1)
     chk.rule('C02-R5', 'columns read by the subsample code under (cleaned, load_AB) are ensured by _setup_fields under the same flags', 6)
     chk.rule('C02-R6', 'loaders are pure: only m, raw, halos, unit constants, INT16SCALE, _unpack_euler16', 10)
+    chk.rule('C02-R7', 'dependencies are loaded before their dependents: capture order, reversed-unique ordering, load loop, in-place stores', 4)
     chk.exhaustive = True
     tabs = dtype_tables(src)
     lt = LoaderTable(src)
@@ -76,6 +77,7 @@ def run(chk):
         extra = sorted(frees - allowed)
         chk.check(not extra and not imp, 'C02-R6', CAT, SETUP, f'loader #{i} /{pat[:40]}/', f'free names {sorted(frees)}',
                   f'loader reads {extra} {imp[:3]}: result can depend on request state', node=asg, nontrivial=False)
+    load_order(chk)
     alloc_keys(chk)
     stale_loopvars(chk)
     ensured(chk)
@@ -273,3 +275,36 @@ def ensured(chk):
 
 def KeyCollectorVal(kc, node):
     return kc.val(node)
+
+
+# --------------------------------------------------------------------------- R7
+def load_order(chk):
+    """A derived column (sigmavMid) reads halos[...] columns that must already be filled for this file."""
+    src = chk.src
+    q = CLS + '_get_halo_fields_dependencies'
+    fn = src.func(CAT, q)
+    t = [unparse(s) for s in walk_no_nested(fn) if isinstance(s, ast.stmt)]
+    ok_cap = 'iter_fields += [k]' in t and 'iter_fields = list(fields)' in t and 'for field in iter_fields:' in unparse(fn)
+    ok_ord = 'fields_with_deps = list(dict.fromkeys(iter_fields[::-1]))' in t and 'field_deps = list(dict.fromkeys(field_dependencies[::-1]))' in t
+    chk.check(ok_cap, 'C02-R7', CAT, q, 'dependencies are appended to the work list after the field that needs them', '',
+              'dependency capture no longer appends the halos[...] keys of a loader behind the requesting field', node=fn)
+    chk.check(ok_ord, 'C02-R7', CAT, q, 'load order = unique(reversed work list): dependencies first, last occurrence wins', '',
+              'the load order is no longer the reversed work list made unique: a derived column could be computed before the columns it reads', node=fn)
+    rets = [n for n in walk_no_nested(fn) if isinstance(n, ast.Return)]
+    okret = len(rets) == 1 and unparse(rets[0].value) == '(raw_dependencies, fields_with_deps, field_deps)'
+    rh = src.func(CAT, CLS + '_read_halo_info')
+    tt = [unparse(s) for s in walk_no_nested(rh) if isinstance(s, ast.stmt)]
+    okuse = '(raw_dependencies, fields_with_deps, extra_fields) = self._get_halo_fields_dependencies(all_fields)' in tt or \
+        'raw_dependencies, fields_with_deps, extra_fields = self._get_halo_fields_dependencies(all_fields)' in tt
+    lp = [n for n in walk_no_nested(rh) if isinstance(n, ast.For) and unparse(n.iter) == 'fields_with_deps']
+    okloop = len(lp) == 1 and [unparse(b) for b in lp[0].body] == ['if field in loaded_fields:\n    continue', 'loaded_fields += self._load_halo_field(halos, rawhalos, field)']
+    ex = [n for n in walk_no_nested(rh) if isinstance(n, ast.For) and unparse(n.iter) == 'extra_fields']
+    okex = len(ex) == 1 and bool(lp) and ex[0].lineno < lp[0].lineno
+    chk.check(okret and okuse and okloop and okex, 'C02-R7', CAT, CLS + '_read_halo_info', 'fields loaded once each in dependency order; temporary columns exist before loading', '',
+              f'returns ok={okret}; used ok={okuse}; load loop ok={okloop}; temporaries created first={okex}', node=rh)
+    lf = src.func(CAT, CLS + '_load_halo_field')
+    tl = [unparse(s) for s in walk_no_nested(lf) if isinstance(s, ast.stmt)]
+    okst = 'halos[field][:] = column' in tl and 'halos[k][:] = column[k]' in tl and 'assert field in column' in tl and \
+        'column = self.halo_field_loaders[pat](match, rawhalos, halos)' in tl
+    chk.check(okst, 'C02-R7', CAT, CLS + '_load_halo_field', 'loader result stored in place into the column of its own name', '',
+              'the loaded values are no longer written in place into halos[field] (or every key of a multi-column result)', node=lf)
